@@ -346,28 +346,38 @@ func runGrpcConc(o *Oracle, rep *Report, r *Rng, tier string) {
 	}
 	// an impatient client: wide ORs over many cold leaves with deadlines of a few milliseconds, given up again and
 	// again while the other clients run (what it abandons must not change anybody else's answers)
+	impatientStarted := make(chan struct{})
 	wg.Add(1)
 	go func() {
 		defer wg.Done()
-		wide := &Ex{Op: "O"}
+		once := sync.Once{}
+		defer once.Do(func() { close(impatientStarted) })
+		var hot []*Ex
 		for ci := range pool.cols {
 			for _, v := range pool.vals[ci] {
-				wide.Kids = append(wide.Kids, &Ex{Op: "E", C: hx(pool.cols[ci]), V: hx(v)})
+				hot = append(hot, &Ex{Op: "E", C: hx(pool.cols[ci]), V: hx(v)})
 			}
 		}
-		if len(wide.Kids) == 0 {
+		if len(hot) == 0 {
 			return
 		}
-		for n0 := len(wide.Kids); len(wide.Kids) < 3000; {
-			wide.Kids = append(wide.Kids, &Ex{Op: "E", C: wide.Kids[len(wide.Kids)%n0].C, V: hx(fmt.Sprintf("cold-%d", len(wide.Kids)))})
+		// thousands of cold leaves first, the leaves everybody else asks about LAST: whatever the server does with a
+		// request it gives up on happens to those
+		wide := &Ex{Op: "O"}
+		for len(wide.Kids) < 3000 {
+			wide.Kids = append(wide.Kids, &Ex{Op: "E", C: hot[len(wide.Kids)%len(hot)].C, V: hx(fmt.Sprintf("cold-%d", len(wide.Kids)))})
 		}
+		wide.Kids = append(wide.Kids, hot...)
 		req := &protoReq{Queries: protoQueries(qcaseToProto(&QCase{E: wide}, 0))}
 		for k := 0; k < per; k++ {
-			ctx, cancel := context.WithTimeout(context.Background(), time.Duration(1+k%6)*time.Millisecond)
+			ctx, cancel := context.WithTimeout(context.Background(), []time.Duration{2, 5, 10, 20, 40, 80, 120}[k%7]*time.Millisecond)
 			s.cl.Query(ctx, req)
 			cancel()
+			if k == 11 {
+				once.Do(func() { close(impatientStarted) }) // the first dozen requests hit a server nobody else has used yet
+			}
 			// fresh cold leaves next time
-			for i := range wide.Kids {
+			for i := 0; i < 3000; i++ {
 				if i%5 == k%5 {
 					wide.Kids[i].V = hx(fmt.Sprintf("cold-%d-%d", k, i))
 				}
@@ -375,6 +385,10 @@ func runGrpcConc(o *Oracle, rep *Report, r *Rng, tier string) {
 			req = &protoReq{Queries: protoQueries(qcaseToProto(&QCase{E: wide}, 0))}
 		}
 	}()
+	select {
+	case <-impatientStarted:
+	case <-time.After(10 * time.Second):
+	}
 	for g := 0; g < 8; g++ {
 		wg.Add(1)
 		go func(g int) {
